@@ -118,6 +118,7 @@ def run(ctx):
            "each term is Rational64::new(if loopless { 2 } else { 1 }, v)" if okt else "the per-orbit term is not (2 or 1)/v")
     symbol_digits(ctx, g)
     symbol_parts(ctx, g)
+    subsymbol_shape(ctx, g)
     loopless_test(ctx, g)
     euler_formula(ctx, g)
     symbol_genus(ctx, g)
@@ -417,6 +418,105 @@ def symbol_parts(ctx, g):
             bad = "`*` and the component's corner list are not pushed together, `*` first, once per boundary component"
     ctx.ob("T9-symbol-parts", b.name, "boundary parts", "ok" if not bad else "violation",
            "for every component of trace_boundary(ds): `*`, then its corner degrees" if not bad else bad)
+
+
+def subsymbol_shape(ctx, g):
+    """subsymbol(ds, indices, seed) - what the 3D code hands to the 2D invariants (vertex figures, tiles, components): the orbit of `seed` under
+    `indices`, renumbered 1.., with op'(i, .) = op(indices[i], .) and v'(i, .) = v(indices[i], indices[i + 1], .), of dimension len(indices) - 1"""
+    ctx.clauses.append("subsymbol: the indices-orbit of the seed, renumbered by inverse maps, with operations / branching numbers looked up through indices[.] (T9)")
+    b = ctx.body("derived::subsymbol")
+    ctx.scan(ctx.facts.with_closures(b.name))
+    ds, seed = ("param", 1, b.debug.get(1, "")), ("param", 3, b.debug.get(3, ""))
+    r = strip(norm(b.local_origin(0), g))
+    idx_t = [None]
+
+    def index_of(t):
+        # indices[t]
+        return ("index", idx_t[0], t) if idx_t[0] is not None else t
+    # discover the index table from the op closure: ds.op(X[i], ..)
+    if is_call(r, "derived::build_sym_using_vs") and is_call(strip(r[2][0]), "derived::build_set"):
+        opr = apply_closure(ctx.facts, strip(strip(r[2][0])[2][2]), [("local", -1, "i"), ("local", -2, "d")], g)
+        o = strip(opr) if opr is not None else None
+        if o is not None and is_call(o, "Option::<T>::map") and is_call(strip(o[2][0]), "DSet::op"):
+            ai = as_index(strip(strip(o[2][0])[2][1]))
+            if ai and strip(ai[1]) == ("local", -1, "i"):
+                idx_t[0] = ai[0]
+
+    def I(t):
+        return ("call", "std::ops::Index::index", (idx_t[0], t)) if False else ("idx", t)
+    # compare modulo the concrete Index representation: canonicalise both sides
+    def canon(t):
+        def f(x):
+            a = as_index(x) if isinstance(x, tuple) and x and x[0] in ("index", "call") else None
+            if a and a[0] == idx_t[0]:
+                return ("idx", unov_deep(strip(a[1])))
+            return None
+        return map_term(t, f)
+    maps = None
+    if idx_t[0] is None:
+        ctx.ob("T9-subsymbol", b.name, "renumbered op / v", "violation", "op'(i, d) does not look up ds.op(indices[i], ..)")
+    else:
+        # reuse the generic check on canonicalised closures by a local re-implementation of its comparison
+        i_, d_ = ("local", -1, "i"), ("local", -2, "d")
+        bs = strip(r[2][0])
+        o = strip(apply_closure(ctx.facts, strip(bs[2][2]), [i_, d_], g))
+        vr = apply_closure(ctx.facts, strip(r[2][1]), [i_, d_], g)
+        oc = strip(o[2][0])
+        a = [strip(y) for y in oc[2]]
+        ix = as_index(a[2])
+        inner = apply_closure(ctx.facts, strip(o[2][1]), [("local", -3, "e")], g)
+        ii = as_index(strip(inner)) if inner is not None else None
+        bad = None
+        if not (a[0] == ds and canon(a[1]) == ("idx", i_) and ix and strip(ix[1]) == d_ and ii and strip(ii[1]) == ("local", -3, "e")):
+            bad = "op'(i, d) is not src2img[ds.op(indices[i], img2src[d])]: %s" % show(o, 1)[:80]
+        else:
+            img2src, src2img = ix[0], ii[0]
+            v = canon(unov_deep(strip(vr))) if vr is not None else None
+            vi = as_index(v[2][3]) if v is not None and is_call(v, "DSym::v") else None
+            if img2src == src2img:
+                bad = "op'(i, d) maps into and out of the same table"
+            elif not (vi and strip(v[2][0]) == ds and strip(v[2][1]) == ("idx", i_) and strip(v[2][2]) == ("idx", ("binop", "Add", i_, ("int", 1))) and vi[0] == img2src and strip(vi[1]) == d_):
+                bad = "v'(i, d) is not ds.v(indices[i], indices[i + 1], img2src[d]): %s" % (show(v, 1)[:80] if v else None)
+            else:
+                maps = (src2img, img2src)
+        ctx.ob("T9-subsymbol", b.name, "renumbered op / v", "ok" if not bad else "violation",
+               "op'(i, d) = src2img[ds.op(indices[i], img2src[d])], v'(i, d) = ds.v(indices[i], indices[i + 1], img2src[d])" if not bad else bad)
+    if maps is None:
+        return
+    src2img, img2src = maps
+    # size / dimension / element set / maps
+    bs = strip(r[2][0])
+    A = [strip(y) for y in bs[2]]
+    orb = [y for y in subterms(A[0]) if is_call(y, "DSet::orbit")]
+    bad = None
+    if not (is_call(A[0], "::len") and len(orb) == 1 and strip(orb[0][2][0]) == ds and strip(orb[0][2][2]) == seed and contains(orb[0][2][1], lambda y: y == idx_t[0])):
+        bad = "the size is not the length of ds.orbit(indices, seed): %s" % show(A[0], 1)[:60]
+    elif unov_deep(A[1]) != ("binop", "Sub", ("call", "std::vec::Vec::<T, A>::len", (idx_t[0],)), ("int", 1)):
+        bad = "the dimension is not indices.len() - 1: %s" % show(A[1], 1)[:50]
+    stores = []
+    for bi, si, s in b.assigns():
+        if [e["k"] for e in s["place"]["p"]] == ["deref"]:
+            tgt = strip(norm(b.local_origin(s["place"]["l"]), g))
+            if is_call(tgt, "IndexMut::index_mut"):
+                stores.append((bi, strip(tgt[2][0]), strip(tgt[2][1]), strip(norm(b.rv_origin(s["rv"]), g))))
+    if not bad:
+        if len(stores) != 2:
+            bad = "%d indexed stores (expected src2img[d] = next; img2src[next] = d)" % len(stores)
+        else:
+            byarr = {st[1]: st for st in stores}
+            if set(byarr) != {src2img, img2src} or byarr[src2img][2] != byarr[img2src][3] or byarr[src2img][3] != byarr[img2src][2]:
+                bad = "the two renumbering maps are not written as inverses of each other"
+            else:
+                dterm = byarr[src2img][2]
+                rr = loop_range_of_payload(b, dterm, g)
+                fa = [atom_norm(x, g) for x in b.facts_at(byarr[src2img][0])]
+                member = any(x[0] == "bool" and x[2] is True and x[1][0] == "call" and x[1][1].endswith("::contains") and contains(x[1][2][0], lambda y: y == orb[0]) and strip(x[1][2][1]) == dterm for x in fa)
+                if not (rr and eval_int(rr[0]) == 1 and rr[2] and is_call(strip(rr[1]), "::size")):
+                    bad = "the renumbering loop does not run over 1..=size()"
+                elif not member:
+                    bad = "a chamber is numbered without `elements.contains(&d)` (the orbit of the seed) dominating the store"
+    ctx.ob("T9-subsymbol", b.name, "size, dimension, maps", "ok" if not bad else "violation",
+           "len(orbit(indices, seed)) chambers, dimension indices.len() - 1, inverse maps over the chambers of that orbit in 1..=size()" if not bad else bad)
 
 
 def symbol_digits(ctx, g):
